@@ -15,6 +15,7 @@ package main
 import (
 	"fmt"
 	"go/token"
+	"go/types"
 	"sort"
 	"strings"
 
@@ -394,4 +395,108 @@ func ruleC16ChainEnds(cx *Ctx) []Obligation {
 		obs = append(obs, bad(key, desc, "no function of package plonk reads an element of openings.PlonkZsNext: the chain of running products is not closed"))
 	}
 	return obs
+}
+
+// ruleC16ChainLinks (O16.7): every consecutive pair of the accumulator chain Z(ζ), π_1, …, π_n, Z(gζ) is linked —
+// n + 1 links for n = NumPartialProducts. Decided on the SSA: the loop that reads chain[i] and chain[i+1] of one list
+// is counted on i from 0 in steps of 1 while i ≤ NumPartialProducts (or i < NumPartialProducts + 1). A loop driven by
+// something else — "while at least a whole chunk of numerators is left" — emits fewer links for shapes whose routed
+// wires are not a multiple of the chunk size: the last partial product is never tied to Z(gζ).
+func ruleC16ChainLinks(cx *Ctx) []Obligation {
+	P := cx.P
+	key := "C16/O16.7/chain-links"
+	desc := "the loop linking consecutive elements chain[i], chain[i+1] of the running-product chain runs i = 0 … NumPartialProducts (n + 1 links): it is counted by the configuration value, not by how many whole chunks of numerators are left"
+	var obs []Obligation
+	found := 0
+	for _, fn := range P.ModuleFuncsSorted() {
+		if fnPkgShort(fn) != "plonk" || fn.Blocks == nil {
+			continue
+		}
+		fi := GetFnInfo(fn)
+		// pairs X[e], X[e+1] read in one loop
+		type rd struct {
+			x   ssa.Value
+			idx ssa.Value
+			b   *ssa.BasicBlock
+		}
+		var reads []rd
+		for _, b := range fn.Blocks {
+			if len(fi.LoopsOf[b.Index]) == 0 {
+				continue
+			}
+			for _, ins := range b.Instrs {
+				ia, ok := ins.(*ssa.IndexAddr)
+				if !ok || !isQESlice(ia.X.Type()) {
+					continue
+				}
+				reads = append(reads, rd{ia.X, ia.Index, b})
+			}
+		}
+		done := map[ssa.Value]bool{}
+		for _, a := range reads {
+			for _, c := range reads {
+				if a.x != c.x || done[a.x] {
+					continue
+				}
+				if d, ok := polyConst(polySub(poly(c.idx), poly(a.idx))); !ok || d != 1 {
+					continue
+				}
+				// only the function that closes the chain (reads Z(gζ)) is of interest
+				if !readsField(fn, "PlonkZsNext") {
+					continue
+				}
+				done[a.x] = true
+				found++
+				site := P.FnName(fn) + " " + P.Pos(a.idx.Pos())
+				la := fi.LoopsOf[a.b.Index]
+				l := la[len(la)-1]
+				pi := poly(a.idx)
+				okLoop := l.Counted && l.Phi != nil && l.StartConst != nil && *l.StartConst == 0 && l.Step == 1 && l.SingleExit && ipolyEq(pi, ipoly{l.Phi.Name(): 1})
+				if !okLoop {
+					obs = append(obs, bad(key, desc, "the linking loop is not counted on the chain index from 0 in steps of 1 (it is driven by another quantity)", site))
+					continue
+				}
+				leaves := map[string]ssa.Value{}
+				pb := ipolyOf(l.Bound, leaves, 0)
+				nKey := ""
+				for k, lv := range leaves {
+					if strings.HasSuffix(accessPath(stripCopies(lv), 0), ".NumPartialProducts") {
+						nKey = k
+					}
+				}
+				want := ipoly{nKey: 1}
+				if l.Op == token.LSS {
+					want = ipoly{nKey: 1, "": 1}
+				}
+				if nKey == "" || (l.Op != token.LEQ && l.Op != token.LSS) || !ipolyEq(pb, want) {
+					obs = append(obs, bad(key, desc, "the linking loop is not bounded by NumPartialProducts (i ≤ n, n + 1 links): bound "+l.Bound.String(), site))
+					continue
+				}
+				obs = append(obs, good(key, desc, site))
+			}
+		}
+	}
+	if found == 0 {
+		obs = append(obs, undecided(key, desc, "no loop reading chain[i] and chain[i+1] of one list was found in the function that closes the running-product chain"))
+	}
+	return obs
+}
+
+func isQESlice(t types.Type) bool {
+	st, ok := t.Underlying().(*types.Slice)
+	return ok && isQEType(st.Elem())
+}
+
+func readsField(fn *ssa.Function, name string) bool {
+	for _, b := range fn.Blocks {
+		for _, ins := range b.Instrs {
+			if fa, ok := ins.(*ssa.FieldAddr); ok && fieldName(fa.X.Type(), fa.Field) == name {
+				return true
+			}
+			if f, ok := ins.(*ssa.Field); ok && fieldName(types.NewPointer(f.X.Type()), f.Field) == name {
+				return true
+			}
+		}
+	}
+	return false
 }
